@@ -2,7 +2,7 @@
 import math
 from fractions import Fraction
 
-from vf.claim import Claim, assume, enum, fork, pick, raises_, real, symbolic_mode, unsupported
+from vf.claim import Claim, assume, enum, fork, pick, raises_, real, symbolic_mode, unsupported, warm_cold
 from vf.fuel import FuelExhausted, with_fuel
 from vf.dyadic import Dy, validate as _dy_validate
 
@@ -54,6 +54,20 @@ def c09_window(v: float) -> bool:
 def _window(base, dots, rat):
     x = _build(base, dots, rat)
     return float(x) * 0.99, float(x) * 1.01
+
+
+def c09_history(bi: int, dots: int, ti: int, w: float, first: bool) -> bool:
+    """analysis does not depend on what was analysed before: an exact value and a value within 1e-5 (relative) of it,
+    analysed in either order, give what each gives in the initial state; the exact one still inverts construction"""
+    base = pick(BASES, bi)
+    dots = enum(dots, 0, 5)
+    rat = pick(TUPLETS, ti)
+    assume(dots == 0 or rat == (1, 1))
+    v = _build(base, dots, rat)
+    assume(v * (1 - 1e-5) <= w <= v * (1 + 1e-5))
+    if fork(first):
+        return warm_cold(lambda: value.determine(w), lambda: value.determine(v)) and value.determine(v) == (base, dots, rat[0], rat[1])
+    return warm_cold(lambda: value.determine(v), lambda: value.determine(w))
 
 
 def c09_tuplets(v: float) -> bool:
@@ -170,6 +184,8 @@ def claims(tier):
         for dots, rat in ((0, (1, 1)), (1, (1, 1)), (0, (3, 2)), (0, (5, 4)), (0, (7, 4))):
             lo, hi = _window(base, dots, rat)
             cl.append(Claim("window[base=%s,dots=%d,%d:%d]" % (base, dots, rat[0], rat[1]), c09_window, params={"base": base, "dots": dots, "rat": rat, "lo": lo, "hi": hi}, group="c09_window", pre=[lambda v: P["lo"] <= v <= P["hi"]], timeout=600 if q else 1800, per_path=120, bounds="v: every double in [%r, %r] (value x 0.99 .. x 1.01), Float64" % (lo, hi)))
+    for b9 in range(10):
+        cl.append(Claim("history[base=%s]" % BASES[b9], c09_history, params={"bi": b9}, group="c09_history", pre=[lambda bi, dots, ti: bi == P["bi"] and 0 <= dots <= 4 and 0 <= ti < 4, lambda w: 0.0 < w < 1000.0], timeout=900 if q else 3000, per_path=120, bounds="base %s x (0-4 dots | 3 tuplets): the exact value and every double within 1e-5 (relative) of it, analysed in either order: each result equals the result in the initial state" % BASES[b9]))
     for kind, ratio in (("triplet", (3, 2)), ("quintuplet", (5, 4)), ("septuplet", (7, 4)), ("septuplet8", (7, 8)), ("tuplet", (9, 8)), ("tuplet", (11, 6))):
         cl.append(Claim("tuplets[%s,%d:%d]" % (kind, ratio[0], ratio[1]), c09_tuplets, params={"kind": kind, "ratio": ratio}, group="c09_tuplets", pre=[lambda v: 0.001 <= v <= 1000.0], timeout=900 if q else 3000, per_path=400, bounds="v: every double in [0.001, 1000] (Float64): %s == %d*v/%d" % (kind, ratio[0], ratio[1])))
     n = len(VOCAB)
